@@ -115,6 +115,23 @@ pub fn collect_items<'tcx>(tcx: TyCtxt<'tcx>) -> J {
         }
         out.push(j);
     }
+    for ldid in tcx.hir_crate_items(()).opaques() {
+        let did = ldid.to_def_id();
+        let mut j = J::obj();
+        j.put("path", J::s(def_path(tcx, did)));
+        j.put("dk", J::s("OpaqueTy"));
+        let span = tcx.def_span(did);
+        j.put("file", J::s(file_of(tcx, span)));
+        span_json(tcx, span, &mut j);
+        j.put("hidden", J::s(format!("{}", tcx.type_of(did).instantiate_identity().skip_norm_wip())));
+        let parent = match tcx.opaque_ty_origin(did) {
+            rustc_hir::OpaqueTyOrigin::FnReturn { parent, .. } => parent,
+            rustc_hir::OpaqueTyOrigin::AsyncFn { parent, .. } => parent,
+            rustc_hir::OpaqueTyOrigin::TyAlias { parent, .. } => parent,
+        };
+        j.put("parent", J::s(def_path(tcx, parent)));
+        out.push(j);
+    }
     J::Arr(out)
 }
 
